@@ -40,11 +40,16 @@ package utils
 //@   assigns nothing
 //@   safety all
 
+// xorS(a, b): octet-wise exclusive or of two equally long strings (defined by the axiom).
+//@ uf xorS(seq, seq) seq
+//@ axiom xorS_def: forall a seq, b seq :: len(a) == len(b) ==> len(xorS(a, b)) == len(a) && (forall i :: 0 <= i && i < len(a) ==> xorS(a, b)[i] == xor8(a[i], b[i]))
 //@ func XorBytes
 //@   props C12 C05
 //@   requires len(arr1) == len(arr2)
+//@   ensures "octet-wise-xor": result === xorS(arr1, arr2)
 //@   ensures len(result) == len(arr1) && fresh(result)
-//@   loop 1 invariant 0 <= i && i <= len(arr1) && len(out) == len(arr1)
+//@   loop 1 invariant 0 <= i && i <= len(arr1) && len(out) == len(arr1) && fresh(out)
+//@   loop 1 invariant forall k :: 0 <= k && k < i ==> out[k] == xor8(arr1[k], arr2[k])
 //@   loop 1 decreases len(arr1) - i
 //@   assigns nothing
 //@   safety all
